@@ -191,7 +191,7 @@ static void ledger_round(State& S, int rep) {
         size_t a = (size_t)1 << (25 + vf_rng_below(&r, 3));    // 32 .. 128 MiB
         void* p = mi_malloc_aligned(n, a);
         if (p == nullptr) vf_trip("wellformed-refused", "C06", "mi_malloc_aligned(%zu,%zu) failed", n, a);
-        if (((uintptr_t)p & (a - 1)) != 0) vf_trip("alignment", "C03", "mi_malloc_aligned(%zu,%zu) returned %p", n, a, p);
+        if ((vf::addr(p) & (a - 1)) != 0) vf_trip("alignment", "C03", "mi_malloc_aligned(%zu,%zu) returned %p", n, a, p);
         b = S.sm.add(p, n, mi_usable_size(p), 0, a, 0, false, EP_malloc_aligned); S.sm.fill(b);
       }
       else b = do_alloc(S, (i % 3 == 0) ? EP_zalloc : EP_malloc, n);
@@ -249,6 +249,9 @@ static void ledger_round(State& S, int rep) {
       int ok = 0, refused = 0;
       for (int i = 0; i < 150; i++) { if (mi_reserve_os_memory(32 * MiB, false /* commit */, false /* large */) == 0) ok++; else refused++; }
       g_ledger_reserve_ok += (uint64_t)ok; g_ledger_reserve_refused += (uint64_t)refused;
+      // huge (1 GiB) OS pages: this machine has no pool of them, so the reservations are refused by the OS (or time out) -- they must leave nothing mapped either; should a pool
+      // exist, the pages become a pinned arena, which the arena rules cover
+      { int h1 = mi_reserve_huge_os_pages_at(1, -1, 20), h2 = mi_reserve_huge_os_pages_interleave(2, 0, 20); (void)h1; (void)h2; }
       vf_err_reset();                                                                   // (each refusal is reported as a warning / ENOMEM)
       alloc_n(300, 16, 8192, false);
       break; }
@@ -699,6 +702,9 @@ static void run_purge_switch(State& S) {
 static void run_purge_abandoned(State& S) {
   add_result_printer(&purgex_print);
   S.sm.refutes_generic = "C01";
+  // the premise of this scenario, whatever the build's default is: with reclaim-on-free the first free below would adopt the segment, and pages inside a segment that a
+  // live thread owns are purged by later activity in that segment, not by a non-forced collect (by design, DESIGN.md 7.2) -- found with the benign change B1 (7.4)
+  mi_option_set(mi_option_abandoned_reclaim_on_free, 0);
   const long d = mi_option_get(mi_option_purge_delay), mult = mi_option_get(mi_option_arena_purge_mult);
   g_p_delay = d; g_p_mult = mult;
   vf_rng_t r; vf_rng_seed(&r, S.cfg.seed);
